@@ -102,6 +102,7 @@ def run(tier):
         r10.maywrite(chk, 'C17.D3', prog, eff, 'mc64ad_', allowed, cfgname)
         inplace.run(chk, 'C17.inplace', prog, cfgname)
         inplace.match_count_rule(chk, 'C17.count', prog, cfgname)
+        inplace.heap_rules(chk, 'C17.heap', prog, cfgname)
         fnames = {f.name for f in prog.all_funcs() if f.unit.endswith(('ldperm.c', 'mc64ad.c'))}
         c19.run_r4(chk, prog, cfgname, funcs=fnames, cid='C17.D4')
         if cfgname == 'tested':
